@@ -114,12 +114,19 @@ int vnacal_new_set_m_error(vnacal_new_t *vnp,
 		return -1;
 	    }
 	}
-	fmin = vnp->vn_frequency_vector[0];
-	fmax = vnp->vn_frequency_vector[vnp->vn_frequencies - 1];
+	/*
+	 * A calibration without frequencies has no range to cover.
+	 */
+	if (vnp->vn_frequencies < 1) {
+	    fmin = fmax = frequency_vector[0];
+	} else {
+	    fmin = vnp->vn_frequency_vector[0];
+	    fmax = vnp->vn_frequency_vector[vnp->vn_frequencies - 1];
+	}
 	lower = (1.0 + VNACAL_F_EXTRAPOLATION) * fmin;
 	upper = (1.0 - VNACAL_F_EXTRAPOLATION) * fmax;
-	if (frequency_vector[0] > lower ||
-		frequency_vector[frequencies - 1] < upper) {
+	if (vnp->vn_frequencies >= 1 && (frequency_vector[0] > lower ||
+		frequency_vector[frequencies - 1] < upper)) {
 	    _vnacal_error(vcp, VNAERR_USAGE,
 		    "vnacal_new_set_m_error: frequency range "
 		    "%.3e..%.3e is outside of calibration range %.3e..%3.e",
